@@ -23,6 +23,7 @@ func checkC06(c *Ctx) {
 	r.Rule("R07.4", "(shared with C07) the list given is sorted, then de-duplicated, and the loop prints the result")
 	r.Rule("R05.10", "(shared with C05) the message is handed on as given from the verbs to the encoder's message field")
 	r.Rule("R02.3", "(shared with C02) what is handed to the destination is the finished record: the payload is the formatting buffer's Bytes() taken right after End(true); nothing cuts, truncates or re-slices the record after the colours were closed")
+	r.Rule("R02.6", "(shared with C02) the pooled formatting context is returned to the pool by the normal path only, after the Write, and not used afterwards: a context put back by a deferred call after a panic inside a value's own method carries the half-built state (group prefix, colours) into the records that follow")
 	r.Rule("R06.4", "no pooled encoder field is read stale in colored mode (engine E10): remaining lines, colours and the end-of-line flag of a previous record cannot surface")
 	r.Assume("messages contain no escape bytes and no HTML-like markup (the property's domain for hygiene/layout); the markup translator of the dependency is treated as text")
 	mode := Mode{false, false}
@@ -40,8 +41,11 @@ func checkC06(c *Ctx) {
 		c06SGR(c, p, m, mr)
 		c06Layout(c, p, m, mr)
 		padUnbounded(c, p)
+		noScannerOnPrintPath(c, p, m, "R06.3")
 		tagWidthSetter(c, p)
 		c02Newline(c, p, m)
+		fixedMembersAlways(c, p, m, "R06.3", []Mode{mode})
+		c02Pool(c, p, m)
 		c07Sort(c, p, m)
 		messageIdentity(c, p, "R05.10")
 		c08Stores(c, p, m)
@@ -218,4 +222,25 @@ func c06Layout(c *Ctx, p *Prog, m *Model, mr *ModeReach) {
 		r.Check(eq, "R06.3", "attr-equals", p.FuncPos(pc), "key and value are joined by '='", "key and value are not joined by '=' in colored mode")
 	}
 	_ = fmt.Sprint
+}
+
+// fixedMembersAlways: (R06.3 / R04.6 / R05.6) the members every record has - timestamp, severity, message - are written
+// on every path of their printers, in every mode: a printer that returns early for some record (a zero time, an
+// empty text) takes a field out of the record.
+func fixedMembersAlways(c *Ctx, p *Prog, m *Model, rule string, modes []Mode) {
+	r := c.R
+	for _, mode := range modes {
+		_, always := emitAnalysis(p, mode)
+		for _, name := range []string{"printTimestamp", "printSeverity", "printMsg", "printFirstLineOfMsg"} {
+			fn := p.Method(p.Slog, "Entry", name)
+			if fn == nil {
+				continue
+			}
+			// the message printers are per mode: skip the one this mode does not use
+			if (name == "printMsg" && !mode.NoColor) || (name == "printFirstLineOfMsg" && mode.NoColor) {
+				continue
+			}
+			r.Check(always(fn), rule, fmt.Sprintf("always[%s]:%s", mode, name), p.FuncPos(fn), "writes its member on every path", fmt.Sprintf("in %s mode %s can return without having written anything: for some record (a zero time, an empty value) a member every record has is missing", mode, name))
+		}
+	}
 }
